@@ -2,7 +2,7 @@
     [prf] and [rsa_verify] range over every function; keys, messages, nonces and identities over every byte string. *)
 From Coq Require Import ZArith Bool List.
 From VLib Require Import Bytes.
-From IkeSa Require Import Gen.IkeFacts Cookie Auth AuthProofs.
+From IkeSa Require Import Gen.IkeFacts Cookie Auth AuthProofs Transitions.
 Import ListNotations.
 Open Scope Z_scope.
 
@@ -66,3 +66,22 @@ Theorem C02_octets_unambiguous : forall (prf : bytes -> bytes -> bytes) (hlen : 
   m = m' /\ n = n' /\ prf k i = prf k' i'.
 Proof. exact signed_octets_injective. Qed.
 Print Assumptions C02_octets_unambiguous.
+
+(** Nothing is installed and no IKE_SA becomes established except through the IKE_AUTH handlers (complete finite
+    domain: the regenerated admission tables and the abstract interpretation of self.state of the current source):
+    (i) every message handler that can install kernel SAs other than the two IKE_AUTH handlers is admitted only in
+        states that already are established (10 <= state < DELETED);
+    (ii) the only handlers that can take an IKE_SA from a pre-established state (< ESTABLISHED) to an established one
+        are the two IKE_AUTH handlers, entered in INIT_RES_SENT resp. AUTH_REQ_SENT. *)
+Theorem C02_install_and_establish_only_after_auth :
+  forallb (fun f => Nat.eqb f FN_process_ike_auth_request || Nat.eqb f FN_process_ike_auth_response ||
+                    forallb (fun st => Z.leb ST_ESTABLISHED st && Z.ltb st ST_DELETED) (admitted_in f))
+          installing_handlers = true /\
+  forallb (fun e => match e with
+                    | (f, st, exits) =>
+                        implb (Z.ltb st ST_ESTABLISHED && existsb (fun x => Z.leb ST_ESTABLISHED x && Z.ltb x ST_DELETED) exits)
+                              (Nat.eqb f FN_process_ike_auth_request && Z.eqb st ST_INIT_RES_SENT
+                               || Nat.eqb f FN_process_ike_auth_response && Z.eqb st ST_AUTH_REQ_SENT)
+                    end) handler_exits = true.
+Proof. split; vm_compute; reflexivity. Qed.
+Print Assumptions C02_install_and_establish_only_after_auth.
